@@ -12,6 +12,8 @@ from props import PROPS
 
 ALL = [p for p in ["C%02d" % i for i in range(1, 21)] if p in PROPS]
 RD = os.path.join(V, "refactors")
+BASES = ["87c37a6", "3f0a31d"]  # earlier /repo HEADs the refactorings were written against (newest first)
+_BASELINES = {}
 
 
 def sh(cmd, cwd=None, env=None):
@@ -59,6 +61,22 @@ def run(ids):
     for rid in ids:
         d = os.path.join(RD, rid)
         rc, out = sh("python3 %s/tools/try_patch.py --patch %s/patch.diff %s" % (V, d, " ".join(ALL)), env=env)
+        baseline = set()
+        used_base = None
+        if "APPLY-FAILED" in out:
+            # written against an earlier /repo HEAD (before a later fix: commit): run on that base and subtract
+            # what the base alone reports (the defect that was fixed since)
+            for cand in BASES:
+                rc2, out2 = sh("python3 %s/tools/try_patch.py --base %s --patch %s/patch.diff %s" % (V, cand, d, " ".join(ALL)), env=env)
+                if "APPLY-FAILED" in out2:
+                    continue
+                used_base = cand
+                out = out2
+                if cand not in _BASELINES:
+                    rcb, outb = sh("python3 %s/tools/try_patch.py --base %s --none %s" % (V, cand, " ".join(ALL)), env=env)
+                    _BASELINES[cand] = {re.sub(r"^(rule violated|UNDECIDED \(fail-closed\)|ANCHOR-MISSING/FLOOR \(fail-closed; not a rule violation\)): ", "", l.strip()).split(" at ")[0] for l in outb.splitlines() if l.strip().startswith(("rule violated", "UNDECIDED", "ANCHOR"))}
+                baseline = _BASELINES[cand]
+                break
         fired = {}
         cur = None
         for l in out.splitlines():
@@ -68,9 +86,12 @@ def run(ids):
                 if m.group(2) != "SILENT":
                     fired[cur] = {"verdict": m.group(2), "keys": []}
             elif cur in fired and l.strip().startswith(("rule violated", "UNDECIDED", "ANCHOR")):
-                fired[cur]["keys"].append(l.strip()[:260])
+                kk = re.sub(r"^(rule violated|UNDECIDED \(fail-closed\)|ANCHOR-MISSING/FLOOR \(fail-closed; not a rule violation\)): ", "", l.strip()).split(" at ")[0]
+                if kk not in baseline:
+                    fired[cur]["keys"].append(l.strip()[:260])
+        fired = {p_: v for p_, v in fired.items() if v["keys"] or v["verdict"] == "INTERNAL"}
         meta = json.load(open(os.path.join(d, "meta.json")))
-        mat[rid] = {"style": meta.get("style"), "functions": meta.get("functions"), "fired": fired, "apply_failed": "APPLY-FAILED" in out}
+        mat[rid] = {"style": meta.get("style"), "functions": meta.get("functions"), "fired": fired, "apply_failed": "APPLY-FAILED" in out, "base": used_base or "HEAD"}
         print(rid, "->", {k: v["keys"][:2] for k, v in fired.items()} or "silent", "APPLY-FAILED" if "APPLY-FAILED" in out else "", flush=True)
         json.dump(mat, open(path, "w"), indent=1)
     lines = ["# Behaviour-preserving refactorings vs checks", "", "Every report here is a false alarm or a fail-closed anchor/idiom report.", "", "| refactoring | style | reports |", "|---|---|---|"]
